@@ -30,6 +30,10 @@ func call(overrideFN *string, namespace types.EnvType, fIn types.MalType, args .
 	if overrideFN != nil {
 		functionName = *overrideFN
 		m := strings.LastIndex(packageName, ".")
+		if m < 0 {
+			// named function of a package whose import path contains no dot
+			m = len(packageName)
+		}
 		functionFullName = fmt.Sprintf("%s[%s]", packageName[:m], *overrideFN)
 	} else {
 		functionName = strings.Replace(functionFullName[n+1:], "_", "-", -1)
